@@ -4,6 +4,21 @@ NOT_APPLICABLE = {}
 BASE_NOTE = ("Trusted: Lean 4.33 kernel (axioms at most propext, Classical.choice, Quot.sound; audited per theorem on every run), "
              "the go/ast fact extractor and its expectations, the seeded correspondence harness (coverage reported in evidence). ")
 TEXT = {
+    "C16": dict(
+        text="Theorems notice_fields_echo, local_sender_gets_error, notice_published_at_origin, notice_only_to_sender_socket / "
+             "notice_not_to_other_nodes, dial_cancelled_by_notice / other_notices_do_not_cancel, drop_is_silent over the packet-handling "
+             "model. Tie: regenerated facts (unknown-listener branch, notice fields, per-socket filter, dial-cancel condition) + "
+             "differential runs of handleMessageData (single node and multi-node) and of StartUnreachable/SubscribeUnreachable/"
+             "monitorUnreachable with several sockets and pending dials (deterministic marker protocol, no timing).",
+        note=BASE_NOTE + "'Fails fast' (notice beats the 15 s QUIC handshake time-out) is a real-time statement: measured, not proved."),
+    "C18": dict(
+        text="Theorems ads_newer_wins, entry_time_monotone (both variants); for the tombstone variant ads_no_resurrection and "
+             "ads_converge_same_messages (order independence) by an inductive invariant over arbitrary histories; for the variant the "
+             "source implements ads_in_order_partial plus witness theorems of the two recorded findings (resurrection after a withdrawal, "
+             "withdrawal relayed again and again). Tie: regenerated facts (keep test, tombstones?, relay) + differential runs of "
+             "handleServiceAdvertisement on shuffled/duplicated histories with logical times; the recorded findings are replayed on the "
+             "implementation on every run (KNOWN-FINDING).",
+        note=BASE_NOTE + "Network-level convergence is stated per node (same messages ⇒ same entry); periodic re-advertisement not modelled."),
     "C20": dict(
         text="Theorem receptorNames_makeSAN: for all DNS/IP/node-ID lists (valid UTF-8, any length, duplicates) the names read back "
              "from the extension MakeReceptorSAN builds are exactly the requested IDs; witness theorem for the repaired defect; model tied "
